@@ -147,7 +147,7 @@ Definition built_bad (sets : list (list nat)) (us : list bytes) (built : list (l
                                && same_set (snd p) (map (fun i => nth i us []) (fst p)))
                    (combine sets built)).
 
-Definition mon20X (inp obs : sx) : list Z :=
+Definition mon20X_raw (inp obs : sx) : list Z :=
   let entries := sx_list (sx_nth inp 0) in
   let sets := map sx_nats (sx_list (sx_nth inp 1)) in
   let prog := map dec_instr (sx_list (sx_nth inp 2)) in
@@ -159,5 +159,8 @@ Definition mon20X (inp obs : sx) : list Z :=
       mon_prog entries us built prog steps
   | _ => [9]
   end.
+
+(** each violated clause is reported once *)
+Definition mon20X (inp obs : sx) : list Z := nodup Z.eq_dec (mon20X_raw inp obs).
 
 Definition judge20X (inp obs : sx) : sx := judge_det run20X mon20X inp obs.
